@@ -317,6 +317,7 @@ def main_check(pid, argv=None):
              "violations": [], "harness_errors": [], "digests": {}, "reruns": 0, "mismatches": [], "samples": [],
              "extra": {}}
     ctx = multiprocessing.get_context("fork")
+    findings_early = load_findings()
     next_index = 0
     max_runs = quick_runs if tier == "quick" else (args.runs or 10**9)
     harness_fail = None
@@ -360,7 +361,10 @@ def main_check(pid, argv=None):
                 total["mismatches"] += agg["mismatches"]
                 total["sigs"].update(agg["sigs"])
                 total["nontrivial_sigs"].update(agg["nontrivial_sigs"])
-                total["violations"] += agg["violations"]
+                for rec in agg["violations"]:
+                    unk = any(not match_finding(findings_early, pid, v) for v in rec["violations"])
+                    if unk or len(total["violations"]) < 400:
+                        total["violations"].append(rec)
                 total["harness_errors"] += agg["harness_errors"]
                 if len(total["digests"]) < 64:
                     total["digests"].update(agg["digests"])
@@ -379,7 +383,9 @@ def main_check(pid, argv=None):
                         total["extra"][k] = total["extra"].get(k, 0) + v
                 if len(total["samples"]) < 3:
                     total["samples"] += agg["samples"][: 3 - len(total["samples"])]
-                stop = (time.time() - t0 > budget) or len(total["violations"]) >= 40 or harness_fail
+                n_unknown = sum(1 for rec in total["violations"] for v in rec["violations"]
+                                if not match_finding(findings_early, pid, v))
+                stop = (time.time() - t0 > budget) or n_unknown >= 40 or harness_fail
                 if not stop:
                     submit()
             if harness_fail and not pending:
